@@ -2,17 +2,24 @@
 #include "h_common.h"
 #include <m4ri/mp.h>
 const char *prop_id = "C16";
-typedef struct { int kind, m, l, n, param, team, nested; } scen_t;
+typedef struct { int kind, m, l, n, param, team, nested, prefill; } scen_t;
 enum { F_MUL_MP, F_ADDMUL_MP, F_MUL, F_M4RM, F_ECH, F_ADDMUL_M4RM, F_NK };
 static const char *fname[] = {"mzd_mul_mp", "mzd_addmul_mp", "mzd_mul", "mzd_mul_m4rm", "mzd_echelonize_m4ri", "mzd_addmul_m4rm"};
 static scen_t SC[4096]; static int nsc = 0, cur = 0; static char NAME[200];
 static pm *A, *B, *C0, *REFM; static int REFRANK; static uint64_t GOTD; static int GOTRANK;
-static int g_tier = 0, g_teams_all = 0;
-static void add(int kind, int m, int l, int n, int param, int team) { if (nsc < 4096) SC[nsc++] = (scen_t){kind, m, l, n, param, team, 1}; }
-static void add_nested(int kind, int m, int l, int n, int param, int team, int nested) { if (nsc < 4096) SC[nsc++] = (scen_t){kind, m, l, n, param, team, nested}; }
+static int g_tier = 0, g_teams_all = 0, g_prefill_only = 0;
+static void add(int kind, int m, int l, int n, int param, int team) { if (nsc < 4096) SC[nsc++] = (scen_t){kind, m, l, n, param, team, 1, 0}; }
+static void add_prefill(int kind, int m, int l, int n, int param, int team) { if (nsc < 4096) SC[nsc++] = (scen_t){kind, m, l, n, param, team, 1, 1}; }
+static void add_nested(int kind, int m, int l, int n, int param, int team, int nested) { if (nsc < 4096) SC[nsc++] = (scen_t){kind, m, l, n, param, team, nested, 0}; }
 void hb_args(int argc, char **argv) {
   int tmin = 1, tmax = 16;
-  for (int i = 1; i < argc; i++) { if (!strcmp(argv[i], "--tier=thorough")) g_tier = 1; if (!strncmp(argv[i], "--teams=", 8)) { sscanf(argv[i] + 8, "%d-%d", &tmin, &tmax); g_teams_all = 1; } }
+  for (int i = 1; i < argc; i++) { if (!strcmp(argv[i], "--tier=thorough")) g_tier = 1; if (!strncmp(argv[i], "--teams=", 8)) { sscanf(argv[i] + 8, "%d-%d", &tmin, &tmax); g_teams_all = 1; } if (!strcmp(argv[i], "--prefill-only=1")) g_prefill_only = 1; }
+  if (g_prefill_only) {
+    /* non-initial start state: the block cache is FULL of large blocks (just below the caching threshold) when the parallel product
+       starts, so every release of a temporary inside a section evicts a large victim */
+    for (int team = 2; team <= (g_tier ? 5 : 4); team++) { add_prefill(F_MUL_MP, 200, 257, 130, 64, team); add_prefill(F_ADDMUL_MP, 131, 129, 200, 64, team); if (g_tier) add_prefill(F_MUL_MP, 257, 256, 129, 128, team); }
+    return;
+  }
   if (!g_tier && !g_teams_all) {
     /* quick tier: every team-size class (1, fewer than / equal to / more than the 4 sections, 16) on a reduced scenario list */
     static const int TS[] = {2, 3, 4, 1, 5, 8, 16};
@@ -38,9 +45,9 @@ void hb_args(int argc, char **argv) {
   }
 }
 int hb_nscenarios(void) { return nsc; }
-void hb_select(int s) { cur = s; scen_t *q = &SC[s]; snprintf(NAME, sizeof NAME, "%s(%dx%dx%d,p=%d)|threads=%d%s", fname[q->kind], q->m, q->l, q->n, q->param, q->team, q->nested > 1 ? (q->nested == 2 ? "|nested=2" : "|nested=3") : ""); icb_team_size = q->team; icb_nested_size = q->nested;
+void hb_select(int s) { cur = s; scen_t *q = &SC[s]; snprintf(NAME, sizeof NAME, "%s(%dx%dx%d,p=%d)|threads=%d%s", fname[q->kind], q->m, q->l, q->n, q->param, q->team, q->nested > 1 ? (q->nested == 2 ? "|nested=2" : "|nested=3") : q->prefill ? "|cache-prefilled" : ""); icb_team_size = q->team; icb_nested_size = q->nested;
   /* teams of 2-3: every schedule within the preemption bound; 4-5: default schedule + every single deviation, with ALL section-to-thread assignments; larger: default + every single deviation */
-  icb_max_deviations = (q->team <= 3 && q->nested == 1) ? 1000 : 1;
+  icb_max_deviations = (q->team <= (q->prefill ? 2 : 3) && q->nested == 1) ? 1000 : 1; /* cache-prefilled start state: ~180 critical sections per run, so 3 threads get default + every single deviation */
   if (q->nested > 1) icb_max_deviations = g_tier ? 1 : 0; /* nested teams: the race detector judges the default schedule (quick); plus every single deviation (thorough) */ icb_free_sections = (q->team == 4 || q->team == 5);
   icb_dev_kinds = (q->team >= 8 && !g_tier) ? ((1u << 1) | (1u << 2) | (1u << 3) | (1u << 9)) : 0xffffffffu; /* quick, large teams: deviate at fork / join / sections / thread-end decisions only */ }
 const char *hb_name(void) { return NAME; }
@@ -58,6 +65,8 @@ void hb_prepare(void) {
 }
 void hb_root(void) {
   scen_t *q = &SC[cur]; GOTD = 0; GOTRANK = -1;
+  if (q->prefill) { /* 16+2 distinct large cacheable sizes, allocated and released: the cache is full and its eviction index has advanced */
+    void *F[18]; size_t base = (size_t)__M4RI_MMC_THRESHOLD - 64; for (int i = 0; i < 18; i++) F[i] = m4ri_mmc_malloc(base - 64 * (size_t)i); for (int i = 0; i < 18; i++) m4ri_mmc_free(F[i], base - 64 * (size_t)i); }
   mzd_t *Az = mzd_from_pm(A), *Bz = B ? mzd_from_pm(B) : NULL, *Cz = NULL, *R = NULL;
   switch (q->kind) {
   case F_MUL_MP: R = mzd_mul_mp(NULL, Az, Bz, q->param); break;
